@@ -42,7 +42,7 @@ def _significant(toks):
 def gen_mutation(r, text, stmts_info=None, classes=None):
     """Pick one mutation for `text`.  classes: subset of
     {'token','struct','line','byte','trunc'}."""
-    classes = classes or ["token", "struct", "line", "byte", "trunc"]
+    classes = classes or ["token", "struct", "line", "byte", "trunc", "cols"]
     cls = r.choice(classes)
     toks = tokenize(text)
     sig = _significant(toks)
@@ -80,6 +80,13 @@ def gen_mutation(r, text, stmts_info=None, classes=None):
                 return {"kind": "tok_delete", "index": r.choice(parens)}
             return {"kind": "tok_duplicate", "index": r.choice(parens)}
         cls = "line"
+    if cls == "cols" and lines:
+        # column-sensitive damage: one character inserted into / replaced in columns 1-6 of a
+        # line (label field, continuation column, comment marker) -- what a fixed-form source
+        # meets when an editor shifts or retypes a character
+        return {"kind": "cols", "line": r.randrange(len(lines)), "col": r.randrange(0, 6),
+                "op": r.choice(["insert", "replace"]),
+                "char": r.choice(" 0123456789&cC*!#\t$+.x")}
     if cls == "line" and len(lines) > 1:
         op = r.choice(["line_delete", "line_duplicate", "line_swap"])
         m = {"kind": op, "line": r.randrange(len(lines))}
@@ -142,7 +149,7 @@ def apply_mutation(data, m):
         elif kind in ("tok_punct", "tok_keyword"):
             toks[i] = m["with"]
         text = "".join(toks)
-    elif kind.startswith("line_") or kind == "rename_end":
+    elif kind.startswith("line_") or kind in ("rename_end", "cols"):
         lines = text.split("\n")
         k = m["line"]
         if k >= len(lines):
@@ -157,6 +164,12 @@ def apply_mutation(data, m):
                 lines[k], lines[j] = lines[j], lines[k]
         elif kind == "rename_end":
             lines[k] = re.sub(r"\w+\s*$", m["name"], lines[k])
+        elif kind == "cols":
+            ln = lines[k].ljust(m["col"] + 1)
+            if m["op"] == "insert":
+                lines[k] = ln[: m["col"]] + m["char"] + ln[m["col"]:]
+            else:
+                lines[k] = ln[: m["col"]] + m["char"] + ln[m["col"] + 1:]
         text = "\n".join(lines)
     return text.encode("utf-8", "surrogateescape")
 
